@@ -726,6 +726,10 @@ func runC11(c *core.Ctx) {
 		w.TZ = tzs[offs[w.Rng.IntN(len(offs))]]
 		w.Goit("init")
 		name, email, icl := gen.Identity(w.Rng)
+		if w.Hist%9 == 4 {
+			// a tab inside the name: the journal line separates its fields with blanks and ONE tab in front of the message
+			name, icl = pickS(w.Rng, []string{"Ada\tLovelace", "tab\tin\tname", "\tlead"}), "tab"
+		}
 		w.Goit("config", "user.name", name)
 		w.Goit("config", "user.email", email)
 		c.Class("C11.identity|" + icl)
